@@ -67,11 +67,14 @@ def is_opt(t) -> bool:
     return isinstance(t, tuple) and t[0] == "opt"
 
 
+LEAN_NAMES: dict = {}  # type name -> Lean name, for extractors that build on this module
+
+
 def lean_ty(t) -> str:
     if isinstance(t, str):
         if t == "Opaque":
             raise Unsupported("opaque type in generated code")
-        return t
+        return LEAN_NAMES.get(t, t)
     if t[0] == "opt":
         if t[1] is None:
             raise Unsupported("cannot type a bare None")
